@@ -2,7 +2,8 @@
     Only statements: each theorem is closed by [exact] of a lemma proved in bgp/AnalyserProofs.v
     (prefix tree: bgp/TrieProofs.v). [rov], [covered], [matched] are RFC 6811 as written in bgp/Rov.v;
     [analyse], [suggest], [validate_one], [categorise_roa] are the model of the krill code in bgp/Analyser.v. *)
-From KV Require Import base.Tac bgp.Prefix bgp.Rov bgp.Analyser bgp.BgpCheck bgp.AnalyserProofs.
+From Coq Require Import Sorting.Sorted.
+From KV Require Import base.Tac bgp.Prefix bgp.Rov bgp.Analyser bgp.BgpCheck bgp.AnalyserProofs bgp.Trie bgp.TrieProofs.
 Open Scope N_scope.
 
 (** The mask test of [RoutePrefix::covers] is the bit-prefix test of RFC 6811 for well-formed prefixes. *)
@@ -138,6 +139,20 @@ Theorem C17_suggest_preserves_validity_refuted :
         rov (map vrp_of_payload (config_after (roas_held roas held limit) s)) (route_of a) = Valid).
 Proof. exact suggest_preserves_validity_refuted. Qed.
 
+(** The strongest restriction of it that holds: with explicit maximum lengths (as a krill CA stores them) and no
+    "too permissive" ROA among those validating the announcement, a validating ROA is kept and survives the updates. *)
+Theorem C17_suggest_preserves_validity_restricted : forall chk roas held limit store s,
+  suggest chk roas held limit (Some store) = Some s ->
+  wf_scope (scope_of held limit) -> wf_store store -> wf_roas roas ->
+  let hr := roas_held roas held limit in
+  explicit_max hr ->
+  forall a, In a store -> in_scope (scope_of held limit) a ->
+    rov (map vrp_of hr) (route_of a) = Valid ->
+    (forall r, In r (map fst (s_too_permissive s)) -> matched (vrp_of r) (route_of a) = false) ->
+    (exists r, In r (s_keep s) /\ matched (vrp_of r) (route_of a) = true)
+    /\ rov (map vrp_of_payload (config_after hr s)) (route_of a) = Valid.
+Proof. exact suggest_preserves_validity_restricted. Qed.
+
 (** Partiality: no panic for ROAs with [len <= max] and [max - len < 128]; never without overflow checks;
     the family-valid IPv6 [::/0-128] does panic in a checked build (candidate finding F17d); a report can always
     be turned into a suggestion. *)
@@ -159,6 +174,33 @@ Theorem C17_suggest_total : forall chk roas held limit seen es,
   analyse chk roas held limit seen = Some es -> suggest_of_entries es <> None.
 Proof. exact suggest_total. Qed.
 
+(** The announcement store. [Trie.v] models the path-compressed prefix tree of [RouteOriginCollection]
+    (builder [process]/[process_node], [closest_ancestor], lookup [more_specific], iteration) as an inductive tree.
+    For every strictly sorted list of well-formed prefix sets of one family the builder terminates, its tree
+    is well formed and holds exactly the input in order, ... *)
+Theorem C17_trie_build_correct : forall f input,
+  Forall (gwf f) input -> StronglySorted glt input ->
+  exists t, build f input = Some t /\ wf_tree f t /\ tree_groups t = input.
+Proof. exact build_correct. Qed.
+
+(** ... the lookup of any well-formed tree is exact, ... *)
+Theorem C17_trie_lookup_wf : forall f t q, wf_tree f t -> wf_prefix q -> p_fam q = f ->
+  tree_lookup t q = map snd (filter (fun g => covers q (fst g)) (tree_groups t)).
+Proof. exact lookup_wf. Qed.
+
+(** ... hence [eq_or_more_specific (build xs) p] = the stored sets whose prefix [p] covers, in prefix order, ... *)
+Theorem C17_trie_lookup_exact : forall f input q,
+  Forall (gwf f) input -> StronglySorted glt input -> wf_prefix q -> p_fam q = f ->
+  exists t, build f input = Some t
+            /\ tree_lookup t q = map snd (filter (fun g => covers q (fst g)) input).
+Proof. exact trie_lookup_exact. Qed.
+
+(** ... and, from the loaded announcements (any order, duplicates), the tree answers exactly what the
+    specification used by the analyser model answers. *)
+Theorem C17_trie_agrees_with_spec : forall store q, wf_store store -> wf_prefix q ->
+  trie_eq_or_more_specific store q = Some (eq_or_more_specific store q).
+Proof. exact trie_agrees_with_spec. Qed.
+
 Print Assumptions C17_covers_is_rfc_covered.
 Print Assumptions C17_validate_is_rfc6811.
 Print Assumptions C17_validate_is_rfc6811_refuted.
@@ -176,7 +218,12 @@ Print Assumptions C17_disallows_exact.
 Print Assumptions C17_as0_disallows_exact.
 Print Assumptions C17_suggest_keeps_validating.
 Print Assumptions C17_suggest_preserves_validity_refuted.
+Print Assumptions C17_suggest_preserves_validity_restricted.
 Print Assumptions C17_analyse_no_panic.
 Print Assumptions C17_analyse_release_total.
 Print Assumptions C17_analyse_total_refuted.
 Print Assumptions C17_suggest_total.
+Print Assumptions C17_trie_build_correct.
+Print Assumptions C17_trie_lookup_wf.
+Print Assumptions C17_trie_lookup_exact.
+Print Assumptions C17_trie_agrees_with_spec.
